@@ -27,6 +27,7 @@ func c16(c *Ctx) {
 		n = 20000
 	}
 	frameHistories(c, n, 1600, false, "Cases.v")
+	redeclaredFrames(c)
 	rule := c.Out.Plan.Rule
 	// addressing a local with an index register: the compiled code must keep the index apart from the other
 	// live values (pipeline validators of C01 on programs of that shape)
@@ -205,4 +206,81 @@ func frameHistories(c *Ctx, n int, seedOff uint64, forceBP bool, file string) {
 	o.Plan.Rule = "random histories of 0..7 AllocLocal calls (sizes 0, unaligned 1..7, 8, multiples of 8, arbitrary up to 100) interleaved with instruction emission, with and without a write to the base pointer (named, or chosen by the allocator under pressure of fifteen live values); compiled with pass.Compile and printed; non-trivial = at least two allocations; distinct by (sizes, clobber)"
 	o.Plan.Stats["histories"] = n
 	o.Plan.Stats["shape"] = kinds
+}
+
+// redeclaredFrames: a generator that emits a function in several steps and declares its name again at each
+// step (or simply declares two functions of one name).  Whatever the builder makes of that, every TEXT block
+// of the printed file must hold the locals its own instructions address: each region inside the block's
+// declared frame, regions of positive size pairwise disjoint within a block.
+func redeclaredFrames(c *Ctx) {
+	o := c.Out
+	rng := NewRNG(c.Seed + 1650)
+	bad := 0
+	for h := 0; h < 60; h++ {
+		ctx := build.NewContext()
+		var sizes []int
+		var steps []string
+		decl := func() {
+			ctx.Function("f")
+			ctx.Attributes(attr.NOSPLIT)
+			ctx.SignatureExpr("func()")
+			steps = append(steps, "Function(f)")
+		}
+		decl()
+		n := 2 + rng.Intn(6)
+		for a := 0; a < n; a++ {
+			if a > 0 && rng.Chance(35) {
+				decl()
+			}
+			sz := []int{8, 16, 32, 8, 24, 64, 1, 4}[rng.Intn(8)]
+			m := ctx.AllocLocal(sz)
+			ctx.MOVQ(reg.RAX, m)
+			sizes = append(sizes, sz)
+			steps = append(steps, fmt.Sprintf("AllocLocal(%d)", sz))
+		}
+		ctx.RET()
+		idx := o.AddCase(Case{Key: "locals:redeclared", Desc: strings.Join(steps, "; "), Input: map[string]any{"steps": steps}, Nontrivial: true})
+		f, err := ctx.Result()
+		if err != nil || pass.Compile.Execute(f) != nil {
+			continue // refusing the history is an acceptable answer
+		}
+		out, err := printer.NewGoAsm(printer.Config{Name: "avo", Pkg: "p"}).Print(f)
+		if err != nil {
+			continue
+		}
+		frame := int64(-1)
+		k := 0
+		var regions [][2]int64
+		problem := ""
+		for _, ln := range strings.Split(string(out), "\n") {
+			if strings.HasPrefix(ln, "TEXT ") {
+				frame = -1
+				if m := textFrameRe.FindStringSubmatch(ln); m != nil {
+					frame, _ = strconv.ParseInt(m[1], 10, 64)
+				}
+				regions = nil
+			}
+			if m := localUseRe.FindStringSubmatch(ln); m != nil && k < len(sizes) && problem == "" {
+				d, _ := strconv.ParseInt("0"+m[1], 10, 64)
+				sz := int64(sizes[k])
+				k++
+				if d+sz > frame {
+					problem = fmt.Sprintf("local %d (%d bytes) is addressed at %d(SP) in a block whose frame is %d bytes", k, sz, d, frame)
+				}
+				for _, rg := range regions {
+					if d < rg[0]+rg[1] && rg[0] < d+sz {
+						problem = fmt.Sprintf("local %d (%d bytes at %d(SP)) overlaps the local at %d(SP) (%d bytes) of the same block", k, sz, d, rg[0], rg[1])
+					}
+				}
+				regions = append(regions, [2]int64{d, sz})
+			}
+		}
+		if k != len(sizes) && problem == "" {
+			problem = fmt.Sprintf("%d locals were allocated and used, the printed file addresses %d", len(sizes), k)
+		}
+		if problem != "" && bad < 5 {
+			bad++
+			o.Plan.GoViolations = append(o.Plan.GoViolations, GoViolation{Key: "locals:redeclared", Desc: fmt.Sprintf("case %d: %s: %s", idx, strings.Join(steps, "; "), problem), Replay: map[string]any{"steps": steps, "text": string(out)}})
+		}
+	}
 }
